@@ -2,20 +2,28 @@
 from harness import tiger
 
 ID = "C19"
-MODULES = ["HeraProofs.Props.C19"]
-GENERATED_DEPS = ["Ops.lean"]
+MODULES = ["HeraProofs.Props.C19", "HeraProofs.Props.C19b"]
+GENERATED_DEPS = ["Ops.lean", "Stdlib.lean"]
 EXPLANATION = ("Theorem C19_div_mod (all 2^32 operand pairs, via Int.fdiv / Int.fmod lemmas and nonlinear arithmetic): the div and "
                "mod helpers - modelled over the regenerated from_u16 / to_u16 - never raise, return 16-bit words, give 0 for a "
                "zero divisor and otherwise satisfy a = q*b + r with |r| < |b| and r carrying the divisor's sign, except for the "
-               "one quotient that does not fit (-32768 / -1). The model is corresponded with all four real helpers. Every other "
-               "function is decided by generated caller programs on the real interpreter, in both calling conventions, from "
+               "one quotient that does not fit (-32768 / -1). The model is corresponded with all four real helpers. Loop-free "
+               "routines of the register-convention library (C19b): their instruction lists are regenerated on every run from "
+               "hera/stdlib.py through the real loader (Generated/Stdlib.lean; *_code_is_ops ties them to the objects of "
+               "program.code) and executed symbolically by the architecture Spec.exec, which the regenerated execute methods "
+               "refine (C01_step): C19_size, C19_ord, C19_not (all argument values, all prior register and memory contents: "
+               "result, return to PC_ret, FP / FP_alt exchanged back, SP, R2..R10 and memory kept), C19_malloc (whenever the "
+               "block fits below the end of the heap: returns the first free address, advances the heap pointer by exactly n, "
+               "changes no other cell, keeps SP and R2..R8 - so consecutive blocks are adjacent and disjoint; first call "
+               "included). Every other function, the stack convention and other layouts are decided by generated caller programs on the real interpreter, in both calling conventions, from "
                "random prior register contents: returns to its caller, SP and FP restored, R1..R10 preserved (stack convention), "
                "functional result (not, size, ord, chr, concat, substring incl. out-of-range bounds, sign of tstrcmp for equal / "
                "prefix / differing strings, malloc: first cell, successive blocks disjoint and inside the heap, out-of-memory "
                "stop), arguments unchanged, printint / print output.")
-ASSUMPTIONS = ["only div and mod are proved; the routines written in HERA (concat, substring, tstrcmp, malloc, chr, ord, size, not, "
-               "memcpy) are decided by the caller-program oracle - proving them means symbolic execution of the library text on "
-               "Spec.exec with loop invariants, which was not reached in this round",
+ASSUMPTIONS = ["proved: div, mod, and size / ord / not / malloc of the register convention (as laid out when the library is the whole "
+               "program; failure paths of malloc - out of memory - are not in the theorem); the routines with loops (concat, "
+               "substring, tstrcmp, memcpy), chr, the stack convention and every other layout are decided by the caller-program "
+               "oracle - proving them needs loop invariants over the library text, which was not reached",
                "getline / getchar / getchar_ord: only the calling contract is checked (their values are not specified by the property)",
                "the register convention is checked for: return to caller, SP, FP, result in R1 (which scratch registers it may "
                "clobber is not documented)"]
